@@ -1576,7 +1576,7 @@ g_irepository_enumerate_versions (GIRepository *repository,
   if (g_irepository_is_registered (repository, namespace_, NULL))
     {
       loaded_version = g_irepository_get_version (repository, namespace_);
-      if (loaded_version && !g_list_find_custom (ret, loaded_version, g_str_equal))
+      if (loaded_version && !g_list_find_custom (ret, loaded_version, (GCompareFunc) g_strcmp0))
         ret = g_list_prepend (ret, g_strdup (loaded_version));
     }
 
